@@ -26,8 +26,9 @@ m = {
  "not_applicable": [],
  "notes": "Every check is runtime monitoring of the real code compiled from /repo's working tree; see DESIGN.md. known_findings.jsonl lists genuine defects recorded rather than repaired.",
 }
+claimed = set(l.strip() for l in open('/verif/claimed.txt') if l.strip() and not l.startswith('#'))
 for p in props:
-    if p in CHECKS:
+    if p in CHECKS and p in claimed:
         c = CHECKS[p]
         m["checks"].append({
           "property_id": p,
